@@ -448,3 +448,5 @@ func runMatchD1(r *Run, g *matchGen, aspect string, checkIrrelevant bool, timeou
 		failTool("MC_Match emitted no table")
 	}
 }
+
+func contextWith(ctx context.Context, k, v any) context.Context { return context.WithValue(ctx, k, v) }
